@@ -191,6 +191,32 @@ func ruleMarshalCoverage(c *core.Ctx) {
 			}
 		}
 	}
+	// and the converse for what depends on the source text rather than on the model: positions and annotations stay
+	// out of the JSON, otherwise moving a definition by a line changes the schema of every protocol
+	for _, key := range []string{"NodeMeta.File", "NodeMeta.Line", "NodeMeta.Column", "NodeMeta.Annotations", "ProtocolDefinition.Versions"} {
+		parts := strings.SplitN(key, ".", 2)
+		tn, _ := sc.Lookup(parts[0]).(*types.TypeName)
+		var st *types.Struct
+		if tn != nil {
+			st, _ = tn.Type().Underlying().(*types.Struct)
+		}
+		if st == nil {
+			c.Undecided(rule, "stays hidden/"+key, 0, "struct not found in pkg/dsl")
+			continue
+		}
+		found := false
+		for i := 0; i < st.NumFields(); i++ {
+			if st.Field(i).Name() != parts[1] {
+				continue
+			}
+			found = true
+			tag := reflect.StructTag(st.Tag(i)).Get("json")
+			c.Check(tag == "-", rule, "stays hidden/"+key, st.Field(i).Pos(), "excluded from JSON", "`"+key+"` ("+neutralHidden[key]+") is marshalled (`json:\""+tag+"\"`): the schema string now depends on where a definition stands in its file / on bookkeeping, not only on the encoding — the same model gives different schemas")
+		}
+		if !found {
+			c.OK(rule, "stays hidden/"+key, tn.Pos(), "the field no longer exists")
+		}
+	}
 	// compact array form
 	if arrayDims == nil {
 		c.Undecided(rule, "ArrayDimensions.MarshalJSON", 0, "not found")
